@@ -34,41 +34,7 @@ ASSUMPTIONS = ["the stub reproduces PROPKA 3.5.1's row schema (res_num, ins_code
 MIN = {"quick": {"groups_checked": 1500, "sweeps": 20, "propka_sweeps": 2},
        "thorough": {"groups_checked": 40000, "sweeps": 600, "propka_sweeps": 30}}
 CELLS_REQUIRED = 276
-GROUPS = ["ASP", "GLU", "HIS", "CYS", "TYR", "LYS", "ARG"]
-# titrated (non-default) state of each group and on which side of the pKa it applies
-TITR = {"ASP": ("ASH", "below"), "GLU": ("GLH", "below"), "HIS": ("HIP", "below"), "CYS": ("CYM", "above"),
-        "TYR": ("TYM", "above"), "LYS": ("LYN", "above"), "ARG": ("AR0", "above"), "N+": ("NEUTRAL-NTERM", "above"),
-        "C-": ("NEUTRAL-CTERM", "below")}
-STUB = {"table": None, "installed": False, "orig": None, "titration_log": []}
-
-
-def install():
-    if STUB["installed"]:
-        return
-    import pdb2pqr.main as pmain
-    STUB["orig"] = pmain.run_propka
-
-    def run_propka(args, biomolecule):
-        if STUB["table"] is None:
-            rows, text = STUB["orig"](args, biomolecule)
-            STUB["real_rows"] = [dict(r) for r in rows]
-            return rows, text
-        return [dict(r) for r in STUB["table"]], "stubbed pKa table"
-
-    pmain.run_propka = run_propka
-    from pdb2pqr.biomolecule import Biomolecule
-    orig_apply = Biomolecule.apply_pka_values
-
-    def apply_pka_values(self, force_field, ph, pkadic):
-        mark = len(pipeline._CAP.records) if pipeline._CAP else 0
-        STUB["pkadic_keys"] = list(pkadic)
-        try:
-            return orig_apply(self, force_field, ph, pkadic)
-        finally:
-            STUB["titration_log"] = list(pipeline._CAP.records[mark:]) if pipeline._CAP else []
-
-    Biomolecule.apply_pka_values = apply_pka_values
-    STUB["installed"] = True
+from ..mon.pkastub import GROUPS, STUB, TITR, install, label, make_table  # noqa: E402,F401
 
 
 def cases(tier, seed):
@@ -89,38 +55,6 @@ def cases(tier, seed):
         out.append({"kind": "propka", "ff": ["PARSE", "AMBER", "CHARMM", "SWANSON", "TYL06", "PEOEPB"][i % 6],
                     "seed": seed * 9001 + i})
     return out
-
-
-def label(resn, resi, chain):
-    return "%-3s%4d%2s" % (resn, resi, chain)
-
-
-def make_table(truth, rng, ph, forced=None):
-    """PROPKA-style rows for every titratable group; forced = {(group, truth index): side} to pin the pKa side."""
-    rows, groups = [], []
-    for k, t in enumerate(truth):
-        if t["kind"] != "aa":
-            continue
-        cands = []
-        if t["pos"] in ("N", "NC"):
-            cands.append("N+")
-        if t["base"] in GROUPS and t["resn"] == t["base"]:
-            cands.append(t["base"])
-        if t["pos"] in ("C", "NC"):
-            cands.append("C-")
-        for g in cands:
-            side = (forced or {}).get((g, k)) or rng.choice(["below", "above"])
-            rel = rng.choice(["random", "random", "equal", "eps"])
-            if side == "below":      # pH below pKa  => protonated
-                pka = {"random": ph + rng.uniform(0.01, 6), "equal": ph + 1e-9, "eps": ph + 1e-9}[rel]
-            else:                    # pH >= pKa
-                pka = {"random": ph - rng.uniform(0.01, 6), "equal": ph, "eps": ph - 1e-9}[rel]
-            lab = label(g if g in ("N+", "C-") else t["resn"], t["resi"], t["chain"])
-            rows.append({"res_num": t["resi"], "ins_code": " ", "res_name": t["resn"], "chain_id": t["chain"],
-                         "group_label": lab, "group_type": None, "pKa": pka, "model_pKa": pka, "buried": 0.0,
-                         "coupled_group": None})
-            groups.append({"group": g, "k": k, "side": side, "rel": rel, "pka": pka})
-    return rows, groups
 
 
 def can_parameterise(model, tr, state_patch, opts_ff):
